@@ -69,8 +69,8 @@ def start_matchers(l, lexer, start):
 
 def ref_scan(ctx, l, lexer, text, a, b, start, stats):
     """leftmost-longest emulation over [a, b) of text, from public calls only.  A candidate is a position where a start
-    terminal matches; the attempt lexes in context from there (leading ignored text included, so a comment that begins
-    like a start terminal swallows what it contains); a match is reported from its first token."""
+    terminal matches and where lexing in context yields a first token that starts right there (a position from which the
+    lexer first skips ignored text is not the start of anything; the positions inside that text are tried in turn)."""
     from lark import TextSlice
     out = []
     pos = a
@@ -85,7 +85,11 @@ def ref_scan(ctx, l, lexer, text, a, b, start, stats):
                 stats['failed-candidates'] = stats.get('failed-candidates', 0) + 1
                 continue
             if toks[0].start_pos != p:
+                # the lexer skipped ignored text first: nothing starts *at* p.  The positions inside that ignored text are
+                # candidates of their own ("no position skipped between matches starts a snippet that parses"; lark's
+                # test_scan_start_inside_ignored_regex_span treats them as real starts too)
                 stats['candidates-starting-with-ignored-text'] = stats.get('candidates-starting-with-ignored-text', 0) + 1
+                continue
             ends = []
             for t in toks:
                 if t.end_pos is not None and (not ends or t.end_pos > ends[-1]):
@@ -217,6 +221,9 @@ FIXED = [
      ['-- -3\n-x', '--5\n-', '-- 1 2\n-', '---7\n--', '-- 4\n5', '--\n-', '-1', '- 2 --c\n', '--9', '-x', '-- -8\n- -']),
     # an ignored terminal that begins like a start terminal: the search finds "-" but the lexer skips "->"
     ('start: DASH? NUM\nDASH: "-"\nNUM: /[0-9]+/\nARROW: "->"\n%ignore ARROW\n%ignore " "\n', ['-5', '->5', '5', '- 5', '-> -5', '->', '-', '5->6', '-->7', '->->8']),
+    # an attempt that begins by skipping ignored text and then SUCCEEDS must not hide the sentences inside that text
+    ('start: "a" | "x" "y"\n%ignore /xab/\n', ['xaba', 'xab', 'xabxy', 'xxab', 'xaby', 'axab a']),
+    ('start: "/" WORD "/"\nWORD: /[a-z]+/\n%ignore /\\/\\/[^\\n]*/\n%ignore /\\s+/\n', ['// x\n/ab/', '//\n/a/', '/a/ // /b/\n/c/', '// /a/']),
     # keywords vs identifiers, in-context maximal munch
     ('start: "let" NAME "=" NUM ";"\nNAME: /[a-z]+/\nNUM: /[0-9]+/\n%ignore / +/\n',
      ['let x = 1;', 'let y=22;', 'letx = 1;', 'let = 3;', 'let let = 1;', 'x', ';', '1', 'let a = b;', '  ', 'let z = 9 ;']),
